@@ -26,6 +26,8 @@ func (k Keeper) BeginBlocker(ctx context.Context) error {
 			err = k.ExecuteStartedStatus(ctx, auction)
 		case types.AuctionStatusVesting:
 			err = k.ExecuteVestingStatus(ctx, auction)
+		case types.AuctionStatusFinished, types.AuctionStatusCancelled:
+			// terminal statuses: nothing left to execute
 		default:
 			err = fmt.Errorf("invalid auction status %s", auction.GetStatus())
 		}
